@@ -29,7 +29,7 @@ class Context:
 
     # -- emitted programs ----------------------------------------------------
     def default_sets(self):
-        return ("shipped", "corpus", "enum", "selfhost") if self.tier == "thorough" else ("shipped", "corpus")
+        return ("shipped", "corpus", "enum", "selfhost") if self.tier == "thorough" else ("shipped", "corpus", "enumq%d" % self.seed)
 
     def programs(self, sets=None):
         sets = sets or self.default_sets()
@@ -69,6 +69,14 @@ class Context:
                 p.error = ("not-parsable" if "does not parse" in str(e) else "not-recognised", "component mode: " + str(e))
         return progs
 
+    def enum_info(self):
+        """What the enumerated set of this run covers (None if it was not emitted)."""
+        import json
+        d = os.path.join(self.art.dir, "enum_src" if self.tier == "thorough" else "enumq_src_%d" % self.seed, "info.json")
+        if os.path.exists(d):
+            return json.load(open(d))
+        return None
+
     def _short(self, path):
         d = os.path.join(self.art.dir, "emit") + "/"
         return path[len(d):] if path.startswith(d) else path
@@ -97,7 +105,7 @@ class Context:
             return self._results[key]
         import json
         from .core import RuleResult, Violation, write_json
-        path = os.path.join(self.art.dir, "results", self.rules_hash(), "%s_%s.json" % (name, self.tier))
+        path = os.path.join(self.art.dir, "results", self.rules_hash(), "%s_%s_s%d.json" % (name, self.tier, self.seed))
         if os.path.exists(path) and not os.environ.get("VERIF_NO_RESULT_CACHE"):
             out = []
             for d in json.load(open(path)):
